@@ -411,13 +411,20 @@ impl Registrations {
 
         let peer = new_registration.record.peer_id();
 
-        if self
+        // Re-registering an existing (peer, namespace) replaces the old registration and hence
+        // never grows the store: the limits only apply to new entries.
+        let is_refresh = self
             .registrations_for_peer
-            .left_values()
-            .filter(|(p, _)| p == &peer)
-            .count()
-            >= self.config.max_registrations_per_peer
-            || self.registrations_for_peer.len() > self.config.max_registrations_total
+            .contains_left(&(peer, new_registration.namespace.clone()));
+
+        if !is_refresh
+            && (self
+                .registrations_for_peer
+                .left_values()
+                .filter(|(p, _)| p == &peer)
+                .count()
+                >= self.config.max_registrations_per_peer
+                || self.registrations_for_peer.len() >= self.config.max_registrations_total)
         {
             return Err(ErrorCode::Unavailable);
         }
